@@ -110,7 +110,7 @@ def main(argv=None):
         evaluations += r['evaluations']
         violations.extend(r['violations'])
         harness_errors.extend(r['harness_errors'])
-        samples.extend(r['samples'])
+        samples.append(r['samples'])
         for k, v in r.get('extra', {}).items():
             if isinstance(v, list):
                 extra.setdefault(k, [])
@@ -177,7 +177,7 @@ def main(argv=None):
             'evaluations': evaluations,
             'distinct_nontrivial': len(hashes),
             'rule': getattr(driver, 'RULE', ''),
-            'samples': samples[:3],
+            'samples': [x[0] for x in samples if x][:3] or [y for x in samples for y in x][:3],
             'monitor_events': dict(sorted(events.items())),
             'api_calls': dict(sorted(api.items())),
             'distinct_states': len(states),
